@@ -32,3 +32,16 @@ Example C02_nonvacuous :
   let s := run (init 2 1) [Write [1;2]; Write [3]; Write [4]; DelSR; Read 1; Read 5; DelSR; DelRS; Write [5]; Read 5] in
   written s = [1;2;3;5] /\ readout s = [1;2;3].
 Proof. vm_compute. auto. Qed.
+
+(* ---- the flow model is the projection of the endpoint model onto one flow (Mux/Project.v):
+   the endpoint's function acts on the stream object as the flow label does, returns the same
+   result and puts on the wire the frames the flow model puts in flight ---- *)
+From PV Require Import Mux.Sys Mux.Project.
+
+Theorem C02_read_projects : forall f sid n oid s x w f' res x' o,
+  live_stream (f_ep f) sid = Some (oid, s) -> e_tx_closed (f_ep f) = false -> R_view x w s ->
+  do_read f sid n = (f', res) -> F.step x (F.Read n) = (x', o) ->
+  res = enc_out o /\
+  exists s', get_stream (f_ep f') oid = Some s' /\ R_view x' w s' /\ same_S s s' /\ st_id s' = st_id s /\
+  exists added, F.wrs x' = F.wrs x ++ added /\ f_out f' = f_out f ++ map (ackwire (st_id s)) added.
+Proof. exact read_projects. Qed.
